@@ -531,6 +531,9 @@ class MessageManager(interfaces.TokenInterface, interfaces.MessageManager):
             assert any(
                 remote == message.remote for (remote, _) in self._active_exchanges
             )
+            # A message that can not be serialized is to fail now, when the
+            # caller can still react to it, and not when its turn comes.
+            message.encode()
             self.log.debug("Message to %s put into backlog", message.remote)
             self._backlogs[message.remote].append((message, messageerror_monitor))
         else:
